@@ -388,19 +388,21 @@ void run_idle_sweep(Judge& j, uint64_t nbase, int max_idle, const std::vector<in
     uint64_t idx = 0;
     Knobs k; k.pubs_max = 6; k.suffix = 12 * SEC; k.span = 1 * SEC; k.faults_max = 1; k.bad_attempts_max = 1; k.big_payload_pct = 0;
     k.rm_choices = {0, 0, 1, 2, 5, 10, 65535}; k.authenticator_pct = 30; k.server_disconnect_pct = 40;
-    for (uint64_t bi = 0; bi < nbase; ++bi) {
+    const uint64_t nmini = 6;    // deterministic small bases on top of the seeded ones (see below)
+    for (uint64_t bi = 0; bi < nbase + nmini; ++bi) {
         vu::Rng rng(ctx.seed * 31337 + bi * 104729);
         Scenario base = gen_mix(rng, k, "idle-base");
         base.seed = ctx.seed; base.index = bi;
-        if (bi % 3 == 2) {
+        if (bi >= nbase) {
             // a small base whose every handler boundary fits under the cap: the Server sends a last message and DISCONNECT in one
             // read (fixed latency), with a request outstanding; what a cancel() issued from the receive handler meets
             base = Scenario{}; base.family = "idle-base"; base.seed = ctx.seed; base.index = bi;
             base.net.latency_min = base.net.latency_max = 200 * US;
+            int variant = (int)(bi - nbase);     // request outstanding: none / QoS 1 / QoS 2; Server reason code 0x00 / 0x8B
             Action r; r.kind = Action::run; base.script.push_back(r);
-            if (rng.chance(1, 2)) { Action p; p.kind = Action::publish; p.at = 250 * MS; p.qos = (int)rng.range(1, 2); p.topic = "x"; p.payload = "y"; base.script.push_back(p); }
-            Action d; d.kind = Action::broker_disconnect; d.at = 300 * MS; d.rc = rng.pick(std::vector<uint8_t>{0x00, 0x8B, 0x98}); d.payload = "last words"; base.script.push_back(d);
-            if (rng.chance(1, 2)) { Action d2 = d; d2.at = 2 * SEC; base.script.push_back(d2); }
+            if (variant % 3) { Action p; p.kind = Action::publish; p.at = 250 * MS; p.qos = variant % 3; p.topic = "x"; p.payload = "y"; base.script.push_back(p); }
+            Action d; d.kind = Action::broker_disconnect; d.at = 300 * MS; d.rc = variant / 3 ? 0x8B : 0x00; d.payload = "last words"; base.script.push_back(d);
+            if (variant % 2) { Action d2 = d; d2.at = 2 * SEC; base.script.push_back(d2); }
             base.end = 8 * SEC;
         }
         if (rng.chance(1, 3)) base.net.shutdown_hangs = true;
